@@ -160,6 +160,35 @@ def run(db, chk):
     pp = calls(ps, "ObjectWriter::put_part")
     ok = len(pp) >= 1 and all(any(x[0] in ("call", "via") and "mem::take" in (x[1] or "") for x in c.op_origins(t["args"][1], transparent=lambda t: True)) for _, t in pp)
     chk.ob(R4, "final-part-is-remaining-buffer", ok, "the final part uploaded on shutdown is the remaining buffer (mem::take)", ps.loc())
+    # every byte taken out of the writer's buffer is sent: wherever `mem::take(&mut self.buffer)` (or mem::replace) empties the
+    # buffer, every way on from there -- to a return, to Pending, around the loop -- hands the taken bytes to an upload
+    # (put_part / the single PUT / a part queue); a take that can be followed by a plain return drops the tail of the object
+    CONVERSIONS = ("From<", "::from", "::into", "::len", "::is_empty", "::as_ref", "::deref", "::clone", "::as_slice")
+    takes = 0
+    for g in fns_in(db):
+        if not g.focus:
+            continue
+        gc = g.cfg
+        rets = set(gc.return_blocks())
+        for b, t in gc.calls():
+            if not (has_name(t, "mem::take", "mem::replace") and t["args"] and ("field", "buffer") in gc.op_origins(t["args"][0], transparent=lambda t_: True)):
+                continue
+            takes += 1
+            chk.analysed(g)
+            users = []
+            for b2, t2 in gc.calls():
+                if b2 == b or any(name_of(t2).endswith(x) or x in name_of(t2).split("::")[-2:][0] for x in CONVERSIONS):
+                    continue
+                if any(any(o[0] in ("call", "via") and o[2] == b and ("mem::take" in (o[1] or "") or "mem::replace" in (o[1] or ""))
+                           for o in gc.op_origins(a, transparent=lambda t_: True)) for a in t2["args"]):
+                    users.append(b2)
+            r_wo = gc.reachable_from([b], avoid=users)
+            esc = sorted(x for x in rets if x in r_wo)
+            again = b in r_wo
+            chk.ob(R4, "taken-buffer-is-sent:%s:%d" % (g.path.split("::")[-1].split(">")[-1] or g.path, takes), bool(users) and not esc and not again,
+                   "%s empties self.buffer at line %s; the taken bytes are handed on by %d call(s); ways to leave without handing them on: %s%s" % (
+                       g.path.split("::")[-1], t.get("ln"), len(users), esc or "none", " (and back to the same take)" if again else ""), g.loc(t["ln"]))
+    chk.floor(R4, "places that empty the writer's buffer", takes, 2)
     # poll_write takes the caller's bytes from the front, in order: the first piece buffered is buf[..n]; any further piece
     # taken in the same call must start where the previous one ended (a slice of `buf` with a start index), never again at 0
     pw = db.one(r"^<object_writer::ObjectWriter as tokio::io::AsyncWrite>::poll_write$", file=FILE)
